@@ -94,7 +94,7 @@ class _Norm(HTMLParser):
 
     def handle_charref(self, name):
         try:
-            c = chr(int(name[1:], 16) if name[:1] in 'xX' else int(name))
+            c = chr(int(name[1:], 16) if name.startswith('x') else int(name))
         except (ValueError, OverflowError):
             c = None
         self._char(c, '&#' + name + ';')
